@@ -249,12 +249,17 @@ func ruleMergeShape(p *Prog, l *Ledger, tier string) {
 	}
 	// (2) Order() after the append
 	ordered := false
+	var skipped *ssa.Call
 	for _, b := range fn.Blocks {
 		for _, ins := range b.Instrs {
 			if c, ok := ins.(*ssa.Call); ok {
 				if sc := c.Call.StaticCallee(); sc != nil && FnName(sc) == "Subtitles.Order" && len(c.Call.Args) > 0 && c.Call.Args[0] == ssa.Value(recv) {
 					if appendStore != nil && instrDominates(appendStore, c) {
-						ordered = true
+						if returnsWithout(appendStore.Block(), c.Block()) {
+							skipped = c
+						} else {
+							ordered = true
+						}
 					}
 				}
 			}
@@ -300,6 +305,8 @@ func ruleMergeShape(p *Prog, l *Ledger, tier string) {
 		l.Prove(rule, "Subtitles.Merge", rule+"|order-after-append", "", "the merged list is sorted in Merge itself by a stable sort with the strict order on StartAt, after the append")
 	} else if ordered {
 		l.Prove(rule, "Subtitles.Merge", rule+"|order-after-append", "", "Order() is called on the receiver after the append on every path")
+	} else if skipped != nil {
+		l.Fail(rule, "Subtitles.Merge", rule+"|order-after-append", p.Pos(skipped.Pos()), "Merge orders the receiver after appending only on some paths: when the call at "+p.Pos(skipped.Pos())+" is skipped the merged list is left as appended, which is ordered only if both lists already were and the argument starts after the receiver ends")
 	} else {
 		l.Fail(rule, "Subtitles.Merge", rule+"|order-after-append", p.Pos(fn.Pos()), "Merge does not order the receiver after appending")
 	}
@@ -656,4 +663,27 @@ func throughLocalCell(v ssa.Value) ssa.Value {
 		return stored
 	}
 	return v
+}
+
+// returnsWithout: from block from, a return can be reached without passing through block b.
+func returnsWithout(from, b *ssa.BasicBlock) bool {
+	if from == b {
+		return false
+	}
+	seen := map[*ssa.BasicBlock]bool{b: true, from: true}
+	work := []*ssa.BasicBlock{from}
+	for len(work) > 0 {
+		x := work[len(work)-1]
+		work = work[:len(work)-1]
+		if _, ok := x.Instrs[len(x.Instrs)-1].(*ssa.Return); ok {
+			return true
+		}
+		for _, sc := range x.Succs {
+			if !seen[sc] {
+				seen[sc] = true
+				work = append(work, sc)
+			}
+		}
+	}
+	return false
 }
